@@ -133,6 +133,14 @@ static sqf::runtime::runtime::result execute_do(sqf::runtime::runtime& runtime, 
         auto& frame = context_active.current_frame();
 
         auto result = frame.next(runtime);
+        if (runtime_error)
+        { // An exit behavior raised the error (eg. an iteration body that did not yield a boolean)
+            if (!recover_from_runtime_error(runtime, context_active, context_active.current_frame().diag_info_from_position()))
+            {
+                return sqf::runtime::runtime::result::runtime_error;
+            }
+            continue;
+        }
 
         if (result == sqf::runtime::frame::result::done && context_active.frames_size() == frame_count)
         { // frame is done executing. Pop it from context and rerun.
